@@ -412,8 +412,8 @@ def oracles(rec):
 # ---------------------------------------------------------------------------------------
 # C09: the same script through the dynamic wrapper and through the typed methods
 
-PRELUDE_LIKE = {'C', 'S', 'T', 'Ok', 'Err', 'Some', 'None', 'Result', 'Option', 'Default', 'Debug', 'Box', 'Send', 'Sync',
-                'Copy', 'PhantomData', 'Self_', 'M'}
+# state names that clash on the pinned tree with what the dynamic wrapper writes unqualified (DESIGN §8); `C` is F6
+PRELUDE_LIKE = {'C', 'Ok', 'Err', 'Result', 'Default'}
 
 def scn_pair(rng, info, d, n_ops=10):
     """(dynamic ops, typed ops): newdyn + handles / newtyped + the typed methods of the same events"""
